@@ -40,6 +40,10 @@ call therefore leaves a cycle without guard and `guards_cut_all_cycles` evaluate
 Anything unexpected (unbalanced braces, a counter used in a shape not understood, a known guard function that
 disappeared) raises TranslateError: a broken tie, reported by the check."""
 import os, re, sys, glob
+try:
+    from . import guardflow
+except ImportError:
+    import guardflow
 
 
 class TranslateError(Exception):
@@ -433,7 +437,7 @@ def analyse(repo):
                         # Type::g — associated functions of that type; a trait name or a generic parameter
                         # (not a type of the scope) may stand for any type
                         generic = bool(re.fullmatch(r"[A-Z][0-9]?", seg)) or \
-                            bool(re.search(r"<[^{]*\b%s\b" % re.escape(seg), nd["header"]))
+                            bool(re.search(r"\b%s\b" % re.escape(seg), nd["header"].split("(")[0]))
                         if t["assoc"] and (t["impl_type"] == seg or (seg not in type_names and generic)):
                             add_edge(nd["id"], t["id"], m.start())
                     elif not t["assoc"] and in_module(t, seg, crate):
@@ -452,6 +456,7 @@ def analyse(repo):
     # guards
     guards = []
     after_restore = {}      # guarded function -> callees referenced where its increment is not in force
+    flows = {}              # guarded function -> counter flow (translators/guardflow.py)
     for nd in nodes:
         body = nd["body"]
         # nested functions are nodes of their own: do not attribute their guard to the enclosing function
@@ -468,7 +473,7 @@ def analyse(repo):
             if not cmp_m and not incs and not decs:
                 if all(re.match(r"%s\s*:" % cname, inner[o:]) for o in other) or not other:
                     continue                      # only read or initialised (`counter: 0`)
-            if not (cmp_m and incs and decs) or len(other) != len(incs) + len(decs):
+            if not (cmp_m and incs) or len(other) != len(incs) + len(decs):
                 raise TranslateError("function %s (%s) uses %s outside the `if counter >= limit { return Err }` / "
                                      "`+= 1` / `-= 1` pattern" % (nd["name"], nd["file"], cname))
             if cls in (0, 1):
@@ -482,10 +487,21 @@ def analyse(repo):
                     raise TranslateError("function %s: %s is not checked right after its increment" % (nd["name"], cname))
                 order = "increment_then_check"
             guards.append((nd["id"], cls, order))
-            covered = coverage(inner, incs, decs)
-            unc = sorted({t_ for (f_, t_), qs in occ.items() if f_ == nd["id"] and any(not covered(q) for q in qs)})
+            # counter flow of the function: control-flow graph + certificate (re-checked by coqc)
+            try:
+                flow = guardflow.analyse_guard(nd["file"] + "::" + nd["name"], inner, nd["header"], cname,
+                                               {t_: qs for (f_, t_), qs in occ.items() if f_ == nd["id"]}, cls == 2)
+            except guardflow.GuardFlowError as e:
+                raise TranslateError("guard of %s: %s" % (nd["name"], e))
+            flows[nd["id"]] = flow
+            unc = set()
+            for ins, succs, cert, site in flow["nodes"]:
+                if ins[0] == "call":
+                    delta = min([cert.get(v, 0) for v in ins[2]], default=0)
+                    if delta < 1:
+                        unc |= set(ins[1])
             if unc:
-                after_restore[nd["id"]] = sorted(set(after_restore.get(nd["id"], [])) | set(unc))
+                after_restore[nd["id"]] = sorted(set(after_restore.get(nd["id"], [])) | unc)
     for nd in nodes:
         body = nd["body"]
         if not re.search(r"\binclude_depth\b", nd["header"]):
@@ -512,7 +528,36 @@ def analyse(repo):
                      "add_component"):
         if expected not in names:
             raise TranslateError("recursion guard of `%s` not found (source changed shape?)" % expected)
-    return nodes, sorted(edges), guards, after_restore
+    check_input_construction(nodes, edges, guards)
+    return nodes, sorted(edges), guards, after_restore, flows
+
+
+def check_input_construction(nodes, edges, guards):
+    """A fresh `Input` starts its counters at 0: no function that can be reached from a guarded parser function may
+    build one (`Input::new`, `Input::with_params`, `Input { .. }` without `..*self`)."""
+    makers = set()
+    for nd in nodes:
+        if not nd["file"].startswith("boreal-parser/"):
+            continue
+        b = nd["body"]
+        if re.search(r"\bInput\s*::\s*(new|with_params)\s*\(", b) or \
+           (re.search(r"\b(Self|Input)\s*\{", b) and nd.get("impl_type") == "Input" and "recursion_counter" in b
+                and not re.search(r"\.\.\s*\*?\s*self", b)):
+            makers.add(nd["id"])
+    adj = {}
+    for a, b in edges:
+        adj.setdefault(a, []).append(b)
+    seen, work = set(), [g for g, c, _ in guards if c in (0, 1)]    # the counters of `Input`
+    while work:
+        u = work.pop()
+        for v in adj.get(u, []):
+            if v not in seen:
+                seen.add(v)
+                work.append(v)
+    bad = sorted(nodes[m]["file"] + "::" + nodes[m]["name"] for m in makers & seen)
+    if bad:
+        raise TranslateError("a function reachable from a recursion guard builds a fresh Input (counters reset): "
+                             + ", ".join(bad))
 
 
 def enclosing_block(s, p):
@@ -556,14 +601,16 @@ def coq_string(s):
     return '"' + s.replace('"', '""') + '"'
 
 
-def render(nodes, edges, guards, after_restore=None):
+def render(nodes, edges, guards, after_restore=None, flows=None):
     # A guarded function that refers to callees while its increment is not in force (before the increment, after
     # the restore) is split: the guarded node keeps all its edges, and a second, UNGUARDED node `f (restored)`
     # gets the edges to those callees and is called by everyone who calls f.
     nodes = list(nodes)
     edges = list(edges)
+    copy_of = {}
     for f, targets in sorted((after_restore or {}).items()):
         nid = len(nodes)
+        copy_of[f] = nid
         nodes.append({"id": nid, "file": nodes[f]["file"], "name": nodes[f]["name"] + " (counter restored)"})
         callers = [a for a, b in edges if b == f]
         edges += [(a, nid) for a in callers] + [(nid, t) for t in targets]
@@ -585,8 +632,39 @@ def render(nodes, edges, guards, after_restore=None):
     lines.append(";\n".join("    (%d, [%s])" % (nd["id"], "; ".join(str(x) for x in sorted(adj.get(nd["id"], []))))
                             for nd in nodes))
     lines.append("  ];")
-    lines.append("  cg_guards := [%s]" % "; ".join("(%d, %d)" % (g, c) for g, c, _ in guards))
+    lines.append("  cg_guards := [%s];" % "; ".join("(%d, %d)" % (g, c) for g, c, _ in guards))
+    lines.append("  cg_progs := [")
+    progs = []
+    accepted = []
+    for f, fl in sorted((flows or {}).items()):
+        ns_ = []
+        for ins, succs, cert, site in fl["nodes"]:
+            if ins[0] == "nop":
+                i_ = "INop"
+            elif ins[0] in ("inc", "dec"):
+                i_ = "%s %d" % ("IInc" if ins[0] == "inc" else "IDec", ins[1])
+            elif ins[0] == "bind":
+                i_ = "IBind %d [%s]" % (ins[1], "; ".join("%d" % x for x in ins[2]))
+            elif ins[0] == "call":
+                i_ = "ICall [%s]%%N [%s]" % ("; ".join("%d" % x for x in ins[1]), "; ".join("%d" % x for x in ins[2]))
+            elif ins[0] == "ret_ok":
+                i_ = "IRetOk %d" % ins[1]
+            else:
+                i_ = "IRetErr"
+            ns_.append("      {| gn_instr := %s; gn_succs := [%s]; gn_cert := [%s] |}" % (
+                i_, "; ".join("%d" % x for x in succs), "; ".join("(%d, %d)" % kv for kv in sorted(cert.items()))))
+        progs.append("    {| gp_fn := %d; gp_copy := %s; gp_params := [%s]%%nat; gp_nodes := [\n%s\n    ]%%nat |}" % (
+            f, "Some %d%%N" % copy_of[f] if f in copy_of else "None",
+            "; ".join("%d" % x for x in fl["params"]), ";\n".join(ns_)))
+        accepted.append("%s: %d flat expressions, %d `?` exits; closures handed to combinators: %s" % (
+            nodes[f]["name"], fl["sites"]["flat"], fl["sites"]["question_mark"],
+            "; ".join(fl["sites"]["closure"]) or "none"))
+    lines.append(";\n".join(progs))
+    lines.append("  ]")
     lines.append("|}.")
+    lines.append("")
+    lines.append("(* counter flow accepted by pattern (see translators/guardflow.py): " + " | ".join(accepted).replace("*)", "* )")
+                 + " | add_component: the include depth is a by-value parameter, handed on as `include_depth + 1` at every use after the check *)")
     lines.append("")
     lines.append("(* guard sites: " + "; ".join("%s::%s class %d %s" % (nodes[g]["file"], nodes[g]["name"], c, o)
                                               for g, c, o in guards) + " *)")
@@ -594,8 +672,8 @@ def render(nodes, edges, guards, after_restore=None):
 
 
 def main(repo, out):
-    nodes, edges, guards, after_restore = analyse(repo)
-    txt = render(nodes, edges, guards, after_restore)
+    nodes, edges, guards, after_restore, flows = analyse(repo)
+    txt = render(nodes, edges, guards, after_restore, flows)
     try:
         if open(out).read() == txt:
             return False
@@ -622,7 +700,7 @@ if __name__ == "__main__":
     if len(sys.argv) > 2:
         main(repo, sys.argv[2])
     else:
-        nodes, edges, guards, after_restore = analyse(repo)
+        nodes, edges, guards, after_restore, flows = analyse(repo)
         print(len(nodes), "functions", len(edges), "edges")
         for f, ts in after_restore.items():
             print("outside the increment of", nodes[f]["name"], ":", [nodes[t]["name"] for t in ts])
